@@ -152,6 +152,11 @@ def _child(script, argv, env, cwd, stdin_fd, out_fd, err_fd, logfd, world,
         os.chdir(cwd)
         os.environ.clear()
         os.environ.update(env)
+        try:
+            import time as _time
+            _time.tzset()            # TZ of the case, not of the harness
+        except Exception:
+            pass
         sys.argv = list(argv)
         sys.stdin = io.TextIOWrapper(io.FileIO(0, 'r', closefd=False),
                                      encoding='utf-8', errors='strict')
